@@ -71,7 +71,8 @@ Clauses(ev, run) ==
     <<"UseSideEquivalence",
         (Has(run, "side") /\ Has(run, "toolkey") /\ Has(ev, run.toolkey)) =>
           LET r == ApplyDecisions(b, ResolveAll(ev[run.toolkey], run.side)) IN r.ok /\ Eq(r.v, m)>>,
-    <<"TsApplied", Has(run, "tsm") => Eq(run.tsm, m)>>,
+    \* mjs: the Python merged document encoded the way JavaScript sees numbers
+    <<"TsApplied", Has(run, "tsm") => (Has(run, "mjs") /\ Eq(run.tsm, run.mjs))>>,
     <<"TsAccepts", ~Has(run, "tsraised")>>,
     <<"ArgsUnchanged",
         Has(run, "after") => (Eq(run.after[1], b) /\ Eq(run.after[2], lo) /\ Eq(run.after[3], re))>>
